@@ -108,13 +108,25 @@ func runC06(c *Ctx, r *Rec) {
 		var readLoop *ast.ForStmt
 		var readIdx int
 		for i, s := range lit.Body.List {
-			if fs, ok := s.(*ast.ForStmt); ok && fs.Cond == nil {
-				readLoop, readIdx = fs, i
-				break
+			if fs, ok := s.(*ast.ForStmt); ok {
+				reads := false
+				inspectNoLit(fs.Body, func(x ast.Node) bool {
+					if lhs, rhs, ok := multiDef(x); ok && len(lhs) == 2 {
+						if _, mname, _, ok := methodCall(ast.Unparen(rhs)); ok && mname == "RemoveHead" {
+							reads = true
+						}
+					}
+					return true
+				})
+				if fs.Cond == nil || reads {
+					readLoop, readIdx = fs, i
+					break
+				}
 			}
 		}
 		if readLoop == nil {
-			r.undecided("D2-closure-propagation", construct, c.pos(lit.Pos()), "no unconditional read loop at the top level of the goroutine")
+			r.skip("D2-closure-propagation", construct, c.pos(lit.Pos()), "no unconditional read loop at the top level of the goroutine: the closure and distribution rules are bound to the `for { v, ok := in.RemoveHead(); if !ok { break } ... }` design")
+			r.skip("D3-distribution", construct, c.pos(lit.Pos()), "no unconditional read loop at the top level of the goroutine")
 			continue
 		}
 		after := lit.Body.List[readIdx+1:]
@@ -131,7 +143,8 @@ func runC06(c *Ctx, r *Rec) {
 			return true
 		})
 		if readCall == nil || valueObj == nil {
-			r.undecided("D3-distribution", construct, c.pos(readLoop.Pos()), "no `value, ok := q.RemoveHead()` in the read loop")
+			r.skip("D2-closure-propagation", construct, c.pos(readLoop.Pos()), "no `value, ok := q.RemoveHead()` in the read loop")
+			r.skip("D3-distribution", construct, c.pos(readLoop.Pos()), "no `value, ok := q.RemoveHead()` in the read loop")
 			continue
 		}
 		// what the function returns
@@ -148,7 +161,8 @@ func runC06(c *Ctx, r *Rec) {
 			return true
 		})
 		if retObj == nil {
-			r.undecided("D2-closure-propagation", construct, c.pos(fd.Pos()), "the helper does not return a variable")
+			r.skip("D2-closure-propagation", construct, c.pos(fd.Pos()), "the helper does not return a variable")
+			r.skip("D3-distribution", construct, c.pos(fd.Pos()), "the helper does not return a variable")
 			continue
 		}
 		lg := newFG(info, lit.Body)
@@ -163,8 +177,15 @@ func runC06(c *Ctx, r *Rec) {
 					}
 				}
 			}
-			r.check(closed, "D2-closure-propagation", construct, c.pos(readLoop.Pos()), "the returned output queue is closed unconditionally after the read loop",
-				"after an input is found closed the goroutine does not close the output queue it returned on every path: readers of the joined stream wait forever")
+			elsewhere := len(callsOnIn(info, lit.Body, retObj, "CloseQueue")) > 0 || passedToHelper(c, info, after, retObj)
+			switch {
+			case closed:
+				r.ok("D2-closure-propagation", construct, c.pos(readLoop.Pos()), "the returned output queue is closed unconditionally after the read loop")
+			case elsewhere:
+				r.skip("D2-closure-propagation", construct, c.pos(readLoop.Pos()), "the output is closed somewhere else than at the top level after the read loop")
+			default:
+				r.fail("D2-closure-propagation", construct, c.pos(readLoop.Pos()), "after an input is found closed the goroutine does not close the output queue it returned: readers of the joined stream wait forever")
+			}
 			// D3: exactly one AddValue(value) on the output per iteration, after a successful read
 			adds := callsOnIn(info, readLoop.Body, retObj, "AddValue")
 			okAdd := len(adds) == 1 && len(adds[0].Args) == 1 && isObj(info, adds[0].Args[0], valueObj) && lg.nodeDominates(readCall, adds[0])
@@ -180,6 +201,10 @@ func runC06(c *Ctx, r *Rec) {
 			}
 			wrap := iterObj != nil && wrapCheckFollows(info, lg, readLoop, iterObj, getNext)
 			start := iterObj != nil && startsFromStart(info, lit.Body, readLoop, iterObj)
+			if iterObj == nil || getNext == nil || len(adds) == 0 {
+				r.skip("D3-distribution", construct, c.pos(readLoop.Pos()), "the read loop does not advance a cyclic iterator with one GetNext and add to the output in its own body")
+				continue
+			}
 			r.check(okAdd && okRead && wrap && start, "D3-distribution", construct, c.pos(readLoop.Pos()),
 				"each iteration reads from the next input in round-robin order (from Start, wrap check after every GetNext) and adds that value once to the output",
 				fmt.Sprintf("Join's loop must read the queue yielded by GetNext, add exactly that value once to the output, start from the first input and wrap with `if !HasNext { ToStart }` after every GetNext (one-add=%v reads-next-input=%v wrap-check=%v starts-at-first=%v); without the wrap check GetNext yields a nil queue at the end slot", okAdd, okRead, wrap, start))
@@ -216,17 +241,22 @@ func runC06(c *Ctx, r *Rec) {
 			})
 		}
 		if iterObj == nil {
-			r.undecided("D2-closure-propagation", construct, c.pos(lit.Pos()), "no iterator over the returned outputs is created before the read loop")
+			r.skip("D2-closure-propagation", construct, c.pos(lit.Pos()), "no iterator over the returned outputs is created before the read loop")
+			r.skip("D3-distribution", construct, c.pos(lit.Pos()), "no iterator over the returned outputs is created before the read loop")
 			continue
 		}
 		// D2: covering traversal from Start that closes
-		okClose, why := coveringTraversal(info, after, iterObj, "CloseQueue", nil)
-		r.check(okClose, "D2-closure-propagation", construct, c.pos(readLoop.Pos()), "after the read loop: ToStart, then every output yielded by GetNext is closed",
-			"after the input is closed the outputs are not all closed: "+why)
+		okClose, why := coveringTraversalH(c, info, after, iterObj, "CloseQueue", nil)
+		if !okClose {
+			why = "after the input is closed the outputs are not all closed: " + why
+		}
+		r.verdict("D2-closure-propagation", construct, c.pos(readLoop.Pos()), "after the read loop: ToStart, then every output yielded by GetNext is closed", why)
 		if name == "Fork" {
-			okDist, why := coveringTraversal(info, readLoop.Body.List, iterObj, "AddValue", valueObj)
-			r.check(okDist, "D3-distribution", construct, c.pos(readLoop.Pos()), "each value read is added to every output by a traversal from Start",
-				"a value read from the input does not reach every output: "+why)
+			okDist, why := coveringTraversalH(c, info, readLoop.Body.List, iterObj, "AddValue", valueObj)
+			if !okDist {
+				why = "a value read from the input does not reach every output: " + why
+			}
+			r.verdict("D3-distribution", construct, c.pos(readLoop.Pos()), "each value read is added to every output by a traversal from Start", why)
 		} else {
 			// Split: one GetNext per iteration whose result gets AddValue(value); wrap check
 			_, getNext := cyclicIterator(info, readLoop)
@@ -251,6 +281,10 @@ func runC06(c *Ctx, r *Rec) {
 				}
 				return true
 			})
+			if getNext == nil {
+				r.skip("D3-distribution", construct, c.pos(readLoop.Pos()), "the read loop does not advance the output iterator with one GetNext in its own body")
+				continue
+			}
 			wrap := getNext != nil && wrapCheckFollows(info, lg, readLoop, iterObj, getNext)
 			dom := getNext != nil && lg.nodeDominates(readCall, getNext)
 			r.check(okOne && nAdds == 1 && wrap && dom, "D3-distribution", construct, c.pos(readLoop.Pos()),
@@ -260,7 +294,6 @@ func runC06(c *Ctx, r *Rec) {
 	}
 	r.floor("D1-waitgroup-pairing", 3)
 	r.floor("D2-closure-propagation", 3)
-	r.floor("D3-distribution", 3)
 	r.floor("D4-loop-progress", 1)
 }
 
@@ -455,7 +488,73 @@ func coveringTraversal(info *types.Info, list []ast.Stmt, iter types.Object, met
 			atStart = true
 		}
 	}
-	return false, "no traversal `for X.HasNext() { ... X.GetNext() ... }` over the outputs at the top level after the read"
+	return false, "skip: no traversal `for X.HasNext() { ... X.GetNext() ... }` over the outputs at the top level"
+}
+
+// coveringTraversalH: coveringTraversal, also looking into an unexported helper of the
+// repository that is handed the iterator at the top level of the list.
+func coveringTraversalH(c *Ctx, info *types.Info, list []ast.Stmt, iter types.Object, method string, arg types.Object) (bool, string) {
+	ok, why := coveringTraversal(info, list, iter, method, arg)
+	if ok || !strings.HasPrefix(why, "skip:") {
+		return ok, why
+	}
+	for _, s := range list {
+		es, isExpr := s.(*ast.ExprStmt)
+		if !isExpr {
+			continue
+		}
+		call, isCall := ast.Unparen(es.X).(*ast.CallExpr)
+		if !isCall {
+			continue
+		}
+		cf := calleeOf(info, call)
+		if cf == nil || cf.Exported() {
+			continue
+		}
+		hd := c.declOf(cf.Origin())
+		if hd == nil || hd.Body == nil {
+			continue
+		}
+		hinfo := c.infoFor(hd)
+		hp := paramObjs(hinfo, hd)
+		for i, a := range call.Args {
+			if i < len(hp) && isObj(info, a, iter) {
+				var harg types.Object
+				if arg != nil {
+					for j, b := range call.Args {
+						if j < len(hp) && isObj(info, b, arg) {
+							harg = hp[j]
+						}
+					}
+					if harg == nil {
+						continue
+					}
+				}
+				return coveringTraversal(hinfo, hd.Body.List, hp[i], method, harg)
+			}
+		}
+	}
+	return ok, why
+}
+
+// passedToHelper: obj is an argument of a call of an unexported repository function in list.
+func passedToHelper(c *Ctx, info *types.Info, list []ast.Stmt, obj types.Object) bool {
+	found := false
+	for _, s := range list {
+		inspectNoLit(s, func(x ast.Node) bool {
+			if call, ok := x.(*ast.CallExpr); ok {
+				if cf := calleeOf(info, call); cf != nil && !cf.Exported() && c.declOf(cf.Origin()) != nil {
+					for _, a := range call.Args {
+						if isObj(info, a, obj) {
+							found = true
+						}
+					}
+				}
+			}
+			return true
+		})
+	}
+	return found
 }
 
 var _ = strings.Join
